@@ -40,3 +40,47 @@ def merged_ok(kids) -> bool:
 def replay_kids(kids):
     ok = merged_ok(kids)
     return ("_parser_merge_str_children on children " + repr(["<node>" if k is None else k for k in kids]), not ok, "children invariant broken (empty string, adjacent strings, placeholder character or lost node)")
+
+
+# ---------------------------------------------------------------- attribute values carry no placeholder characters
+from wikitextprocessor.common import MAGIC_FIRST
+from wikitextprocessor.parser import HTMLNode, _parser_pop
+
+COOKIE = chr(MAGIC_FIRST)
+ACH = "a " + COOKIE
+
+
+def attrs_clean(v: str, table_row: bool) -> bool:
+    ctx.start_page("T")
+    ctx.cookies = [("T", ("foo",), False)]
+    root = WikiNode(NodeKind.ROOT, 0)
+    if table_row:
+        node = WikiNode(NodeKind.TABLE_ROW, 1)
+    else:
+        node = HTMLNode(1)
+        node.sarg = "span"
+    node.attrs["class"] = v
+    root.children.append(node)
+    ctx.parser_stack = [root, node]
+    _parser_pop(ctx, False)
+    return all(COOKIE not in x for x in node.attrs.values()) and ctx.parser_stack == [root]
+
+
+def replay_attrs(v, table_row):
+    w = Wtp(quiet=True, quiet_output=True)
+    w.start_page("T")
+    val = v.replace(COOKIE, "{{foo}}")
+    doc = ("{|\n|- class=\"" + val + "\"\n| x\n|}") if table_row else ("<span class=\"" + val + "\">x</span>")
+    root = w.parse(doc)
+    bad = []
+
+    def walk(n):
+        if isinstance(n, WikiNode):
+            for k, x in n.attrs.items():
+                if any(0x100000 <= ord(ch) for ch in x):
+                    bad.append((n.kind.name, k, x))
+            for c in n.children:
+                walk(c)
+
+    walk(root)
+    return ("parse(" + repr(doc) + ")", bool(bad), f"internal placeholder character in attribute value: {bad}")
